@@ -25,7 +25,45 @@ Check (C11_closed_on_user_close :
     forallb prompt_op ops = true -> In x (fst (run c init ops)) ->
     ps (fst (fst x)) p = Some (Open k) ->
     step c (fst (fst x)) (CmdClose p) = Some (s', ev, calls) -> In (UClosed p) ev).
+Check (C11_no_stuck :
+  forall (c : cfg) (ops : list op), snd (run c init ops) = true).
+Check (C11_no_stuck_feasible :
+  forall (c : cfg) (ops : list op), feasible c init ops = true -> snd (run c init ops) = true).
+Check (C11_guards_are_the_environment :
+  forall (c : cfg) (s : st) (o : op), enabled s o = false -> main_handler c s o = Some (s, [], [])).
+Check (C11_no_stuck_needs_environment_refuted :
+  exists (c : cfg) (ops : list op) (p : peer),
+    conn (last_state c ops) p = true /\ on_established c (last_state c ops) p = None).
+Check (C11_isolation :
+  forall (c : cfg) (s : st) (o : op) (s' : st) (ev : list uev) (cl : list call),
+    reachable c s -> step c s o = Some (s', ev, cl) -> iso s s' (op_peer o) ev cl).
+Check (C11_runs_are_reachable :
+  forall (c : cfg) (ops : list op) (x : st * list uev * list call),
+    In x (fst (run c init ops)) -> reachable c (fst (fst x))).
+Check (C11_accepted_only_by_accept :
+  forall (c : cfg) (s : st) (o : op) (s' : st) (ev : list uev) (cl : list call) (q : peer),
+    step c s o = Some (s', ev, cl) -> acc_inb (ps s' q) = true -> acc_inb (ps s q) = false ->
+    is_accept c s o q = true).
+Check (C11_inbound_needs_accept :
+  forall (c : cfg) (pre : list op) (s : st) (o : op) (s' : st) (ev : list uev) (cl : list call)
+         (p : peer) (d : dir),
+    exec c init pre = Some s -> step c s o = Some (s', ev, cl) -> In (UOpened p d) ev ->
+    exists pre1 a pre2 s1,
+      pre = pre1 ++ a :: pre2 /\ exec c init pre1 = Some s1 /\ is_accept c s1 a p = true).
+Check (C11_open_answered :
+  forall (c : cfg) (ops : list op) (s : st) (owed : peer -> bool),
+    ledger_env c init ops = true -> ledger c init (fun _ => false) ops = Some (s, owed) ->
+    forall p, owed p = true -> in_progress (ps s p) = true /\ obligation s p = true).
+Check (C11_quiescent_nothing_owed :
+  forall (c : cfg) (ops : list op) (s : st) (owed : peer -> bool) (p : peer),
+    ledger_env c init ops = true -> ledger c init (fun _ => false) ops = Some (s, owed) ->
+    obligation s p = false -> owed p = false).
+Check (C11_at_most_one_answer :
+  forall (c : cfg) (s : st) (o : op) (s' : st) (ev : list uev) (cl : list call) (q : peer),
+    step c s o = Some (s', ev, cl) -> (length (answers q ev) <= 1)%nat).
 Check (C11_open_answered_refuted :
-  exists (c : cfg) (ops : list op),
-    ps (last_state c ops) 0 = Some (OutInit 0) /\ spend (last_state c ops) = [] /\
-    last ops (Timer 0) = CmdOpen 0).
+  exists (c : cfg) (ops : list op) (s : st) (owed : peer -> bool),
+    ledger c init (fun _ => false) ops = Some (s, owed) /\ owed 0 = true /\ obligation s 0 = false).
+Check (C11_open_answered_needs_validation_answers_refuted :
+  exists (c : cfg) (ops : list op) (s : st) (owed : peer -> bool),
+    ledger c init (fun _ => false) ops = Some (s, owed) /\ owed 0 = true /\ in_progress (ps s 0) = false).
